@@ -1,38 +1,3 @@
--- GENERATED by tools/gen/c13_gate.py from src/io/simulation_initializer.cpp, src/mesh/cell.cpp, src/mesh/edge.cpp, src/triangulation_modules/poisson_sampling.cpp, src/triangulation_modules/ball_pivoting_algorithm.cpp, src/triangulation_modules/initial_triangulation.cpp — do not edit.
-import SimuVerif.Model.Vec
-set_option linter.unusedVariables false
-namespace Simu.Gen.Gate
-open Simu
-variable {R : Type} [Add R] [Sub R] [Mul R] [Div R] [Neg R] [Lit R] [LT R] [DecidableLT R]
-/-- `constexpr short max_nb_tries` of `simulation_initializer::triangulate_surface` -/
-def maxNbTries : Nat := 10
-/-- the upper edge length handed to `initial_triangulation::triangulate_surface` -/
-def lMax (l_min : R) : R := ((lit 3 : R) * l_min)
-/-- `initialize_cell_properties(true)` refuses a face that uses a node twice (mesh_integrity_exception) -/
-def checksNonDegenerate : Bool := true
-/-- `is_manifold` requires two faces on every edge -/
-def checksTwoFacesPerEdge : Bool := true
-/-- `is_manifold` requires `nb_nodes - nb_edges + nb_faces` to be this number (`none`: no such test) -/
-def eulerTarget : Option Nat := some 2
-/-- `check_face_normal_orientation` throws when a used face was not reached by the flood fill -/
-def checksConnected : Bool := true
-/-- voxel size of the two grids of `compute_poisson_point_cloud(l_min, cell)` -/
-def poissonVoxel (fn : Fn R) (l_min : R) : R := l_min
-/-- `l_min_squared` of `poisson_disk_sampling` -/
-def lMinSquared (l_min : R) : R := (l_min * l_min)
-/-- the rejection test of the inner loop of `poisson_disk_sampling` on the squared distance `d2` -/
-def dartReject (l_min_squared d2 : R) (nb_tries : Nat) : Bool := decide (d2 < l_min_squared) || decide (nb_tries ≥ 30)
-/-- at most this many candidates of a voxel are tried -/
-def maxCandidates : Nat := 30
-/-- ball radius of `ball_pivoting_algorithm` (not modelled; recorded only) -/
-def ballRadius (l_min : R) : R := (((lit 17 : R) / lit 10) * l_min)
-/-- padding of its grid on every side -/
-def bpaPadding (ball_radius : R) : R := (ball_radius * (lit 2 : R))
-/-- voxel size of its grid -/
-def bpaVoxel (ball_radius : R) : R := ball_radius
-/-- the coarse mesh passes `initialize_cell_properties(true)` (integrity tests + outward orientation) before it is sampled -/
-def coarseMeshChecked : Bool := true
-/-- the members of a fan triangle in the order of the source: 0 = f[i] (previous corner), 1 = f[j] (corner), 2 = centre -/
-def fanOrder : Nat × Nat × Nat := (0, 1, 2)
-
-end Simu.Gen.Gate
+-- GENERATED: translation FAILED
+#eval (throw (IO.userError "translator failed for GateConsts: triangulate_surface: `if(i == max_nb_tries - 1) throw intialization_exception(\u2026)` must follow the catch block") : IO Unit)
+translator_failed
